@@ -261,3 +261,29 @@ Proof.
 Qed.
 Print Assumptions C17_load_all_order_is_code.
 End HandlerGlueC17.
+
+(* ---- the return code of every collection loader on a file that is missing / cannot be opened / cannot be decoded is the
+   model's `rc` (tools/gen_coll_loaders.py, Proofs/CollLoadersTie.v): running the REGENERATED frame of each of the seven
+   functions - whatever the loop body does (`step`), whatever the map held (`s0`), whatever `ret` held (`r0`) - a missing
+   file gives the cleared map and -ENOENT, another open failure -errno, a decoder exception after a prefix -EBADMSG unless
+   an entry threw first (-EINVAL), a decodable file 0 or -EINVAL; no exception escapes, the function always returns *)
+Require TrV.CollCode TrV.gen.CollLoaders.
+From TrV Require Proofs.CollLoadersTie.
+Module COLL17.
+  Import TrV.Loader2 TrV.CollCode.
+  Module CL := TrV.gen.CollLoaders.
+  Theorem C17_collection_loader_errors_are_code :
+    forall (S M : Type) (clear : S -> S) (step : S -> M -> S * bool) (s0 : S) (r0 : rval),
+    let run := fun self code file => run_frame self clear (fun s => s) step file (lc_frame code) s0 r0 in
+    let all := [ run CAgencies CL.gen_agencies_loader; run CServices CL.gen_services_loader; run CNodes CL.gen_nodes_loader;
+                 run CLines CL.gen_lines_loader; run CPaths CL.gen_paths_loader; run CScenarios CL.gen_scenarios_loader;
+                 run CDataSources CL.gen_datasources_loader ] in
+    forall r, In r all ->
+      r FMissing = Some (clear s0, RC_ENOENT) /\
+      r FUnreadable = Some (clear s0, RC_EOTHER) /\
+      r (FGarbled []) = Some (clear s0, RC_EBADMSG) /\
+      (forall p, option_map snd (r (FGarbled p)) = Some (if snd (fold_entries step p (clear s0)) then RC_EBADMSG else RC_EINVAL)) /\
+      (forall msg, option_map snd (r (FDecoded msg)) = Some (if snd (fold_entries step msg (clear s0)) then RC_OK else RC_EINVAL)).
+  Proof. exact TrV.Proofs.CollLoadersTie.loader_error_codes. Qed.
+  Print Assumptions C17_collection_loader_errors_are_code.
+End COLL17.
